@@ -119,4 +119,58 @@ def das_noamp_lanczos {K : Type} {D : Type} [Add K] [Sub K] [Mul K] [Div K] [Neg
   let cell_result := (d.divNat res_tmp numtimetraces)
   cell_result
 
+/-- generated from `arim/im/huber.py`, function `_huber_iter` (line 16) -/
+def huber_iter {K : Type} [Add K] [Sub K] [Mul K] [Div K] [Neg K] [LT K] [DecidableLT K] [LE K] [DecidableLE K]
+    (o : Ops K) (data : Nat → Nat → K) (n : Nat) (tau : K) (x0 : K) (y0 : K) : K × K :=
+  let sum_w := (o.ofNat 0)
+  let x := (o.ofNat 0)
+  let y := (o.ofNat 0)
+  let (sum_w, x, y) := (List.range n).foldl (fun (sum_w, x, y) i =>
+        let x_i := ((data i) (0 : Nat))
+        let y_i := ((data i) (1 : Nat))
+        let w_i := (pyMin (o.ofNat 1) (tau / (o.sqrt (((x0 - x_i) * (x0 - x_i)) + ((y0 - y_i) * (y0 - y_i))))))
+        let sum_w := (sum_w + w_i)
+        let x := (x + (x_i * w_i))
+        let y := (y + (y_i * w_i))
+        (sum_w, x, y)) (sum_w, x, y)
+  let inv_sum_w := ((o.ofNat 1) / sum_w)
+  let x := (x * inv_sum_w)
+  let y := (y * inv_sum_w)
+  (x, y)
+
+/-- generated from `arim/im/geomed.py`, function `_f` (line 15) -/
+def geomed_f {K : Type} [Add K] [Sub K] [Mul K] [Div K] [Neg K]
+    (o : Ops K) (data : Nat → Nat → K) (n : Nat) (z : Nat → K) : K :=
+  let out := (o.ofNat 0)
+  let x := (z (0 : Nat))
+  let y := (z (1 : Nat))
+  let out := (List.range n).foldl (fun out i =>
+        let out := (out + (o.sqrt (((x - ((data i) (0 : Nat))) * (x - ((data i) (0 : Nat)))) + ((y - ((data i) (1 : Nat))) * (y - ((data i) (1 : Nat)))))))
+        out) out
+  out
+
+/-- generated from `arim/im/geomed.py`, function `_gradf_and_inv_hessf` (line 33) -/
+def geomed_gradf_and_inv_hessf {K : Type} [Add K] [Sub K] [Mul K] [Div K] [Neg K]
+    (o : Ops K) (data : Nat → Nat → K) (n : Nat) (z : Nat → K) : K × K × K × K × K :=
+  let x := (z (0 : Nat))
+  let y := (z (1 : Nat))
+  let gx := (o.ofNat 0)
+  let gy := (o.ofNat 0)
+  let a11 := (o.ofNat 0)
+  let a12 := (o.ofNat 0)
+  let a22 := (o.ofNat 0)
+  let (gx, gy, a11, a12, a22) := (List.range n).foldl (fun (gx, gy, a11, a12, a22) i =>
+        let tx := (x - ((data i) (0 : Nat)))
+        let ty := (y - ((data i) (1 : Nat)))
+        let inv_l2_t := ((o.ofNat 1) / (o.sqrt ((tx * tx) + (ty * ty))))
+        let gx := (gx + (inv_l2_t * tx))
+        let gy := (gy + (inv_l2_t * ty))
+        let inv_l2_t3 := ((inv_l2_t * inv_l2_t) * inv_l2_t)
+        let a11 := (a11 + (inv_l2_t - (inv_l2_t3 * (tx * tx))))
+        let a12 := (a12 - ((tx * ty) * inv_l2_t3))
+        let a22 := (a22 + (inv_l2_t - (inv_l2_t3 * (ty * ty))))
+        (gx, gy, a11, a12, a22)) (gx, gy, a11, a12, a22)
+  let invdet := ((o.ofNat 1) / ((a11 * a22) - (a12 * a12)))
+  (gx, gy, (a22 * invdet), ((-a12) * invdet), (a11 * invdet))
+
 end Arim.Src
